@@ -113,6 +113,35 @@ def pinched_model_surfaces(rng, w, force=False):
     w['truth']['pinch'] = pinch
 
 
+def forearc_spline(rng, w):
+    """a cold plate painted first, then a slab whose mass conserving model uses the spline and reaches above the slab top (negative top
+    truncation): in the fore-arc wedge the incoming temperature is colder than anything the slab model produces, so several spline
+    nodes carry the same value"""
+    feats = w['json']['features']
+    plate, slab = feats[0], feats[1]
+    plate['temperature models'] = [{'model': 'uniform', 'temperature': wg.num(rng, 150, 500)}] if rng.random() < 0.6 else \
+        [{'model': 'linear', 'max depth': 4e5, 'top temperature': wg.num(rng, 150, 300), 'bottom temperature': wg.num(rng, 300, 900)}]
+    plate.pop('min depth', None)
+    plate['max depth'] = 6e5
+    thick = w['truth']['features'][1]['thickness']
+    above = wg.R(rng.uniform(0.3, 1.5) * thick)
+    tr = slab['coordinates']
+    cx, cy = 0.5 * (tr[0][0] + tr[-1][0]), 0.5 * (tr[0][1] + tr[-1][1])
+    span = 12.0 if w['truth']['ctx'].sph else 1.5e6
+    plate['coordinates'] = [[wg.R(cx - span), wg.R(cy - span)], [wg.R(cx + span), wg.R(cy - span)], [wg.R(cx + span), wg.R(cy + span)], [wg.R(cx - span), wg.R(cy + span)]]
+    w['truth']['features'][0]['poly'] = [tuple(p) for p in plate['coordinates']]
+    w['truth']['features'][0]['d0'], w['truth']['features'][0]['d1'] = 0.0, 6e5
+    slab['temperature models'] = [{'model': 'mass conserving', 'spreading velocity': wg.num(rng, 0.01, 0.1), 'subducting velocity': wg.num(rng, 0.01, 0.1),
+                                   'ridge coordinates': [[[wg.R(cx - (40.0 if w['truth']['ctx'].sph else 4e6)), wg.R(cy - span)], [wg.R(cx - (40.0 if w['truth']['ctx'].sph else 4e6)), wg.R(cy + span)]]],
+                                   'min distance slab top': -above, 'max distance slab top': wg.R(thick), 'apply spline': True, 'number of points in spline': rng.randint(3, 12),
+                                   'coupling depth': wg.num(rng, 3e4, 1.2e5)}]
+    slab.pop('sections', None)
+    for sg in slab['segments']:
+        sg.pop('temperature models', None)
+        sg['top truncation'] = [-above]
+    w['truth']['features'][1]['above'] = above
+
+
 def sloppy_rotation_matrices(rng, w):
     """rotation matrices written with two to four decimals (as people type them): finite, but not orthonormal, so that the derived
     quaternions are not of unit length"""
@@ -270,6 +299,15 @@ def catalogue(rng, w, extreme):
                             nx, ny = -nx, -ny
                         for s in (L, 0.5 * L, L * (1 + 1e-12)):
                             surf.append(('slab-surface-or-tip', px + nx * s * math.cos(th) / unit, py + ny * s * math.cos(th) / unit, d0 + s * math.sin(th)))
+                        if ft.get('above'):
+                            # the wedge above the slab top that a negative top truncation admits (straight dip estimate)
+                            for s in (0.2 * L, 0.4 * L, 0.6 * L, 0.8 * L):
+                                for nn in (0.05, 0.2, 0.4, 0.6, 0.8, 0.95):
+                                    off = -nn * ft['above']
+                                    hh = s * math.cos(th) - off * math.sin(th)
+                                    vv = s * math.sin(th) + off * math.cos(th)
+                                    if d0 + vv > 0:
+                                        surf.append(('forearc-wedge-above-the-slab-top', px + nx * hh / unit, py + ny * hh / unit, d0 + vv))
             surf.append(('dip-point', ft['dip'][0], ft['dip'][1], d0 + 1e4))
             if ft.get('vertical') and fj is not None:
                 # exactly at the segment junctions and at the tip of a vertical slab, on the trench and a little to both sides
@@ -329,7 +367,7 @@ def main(tier, seed, replay):
     rng = random.Random(seed * 4447 + 13)
     V = core.Verdict(PID, tier, seed)
     V.coverage['rule'] = ('generated worlds with finite parameters (all feature/model types, both systems) and corpus worlds queried (3D and 2D, full property lists) at a catalogue of degenerate locations derived from '
-                          'the truth record: polygon vertices and edge midpoints, feature min/max depths exactly and their floating point neighbours, the own min/max depth exactly and its neighbours (half of the worlds have model ranges rewritten to touch the range of the feature in one depth: starting where the feature ends, ending where it starts, without extent, two layers meeting at one depth, a max depth surface reaching the min depth of the model at one listed point; a third of the worlds give models - cooling models included - a max depth surface that pinches out to zero local thickness at listed points, along the edge and on the triangle between them), plume centres/rims/tip, points exactly on a ridge axis (ridges rewritten to pass through the plate) at depth zero and the top of the model, rotation matrices written with 2-4 decimals (a quarter of the worlds), exactly vertical slabs/faults queried exactly at their segment junctions and tip (mass conserving without taper), trench coordinates, points on the trench line and '
+                          'the truth record: polygon vertices and edge midpoints, feature min/max depths exactly and their floating point neighbours, the own min/max depth exactly and its neighbours (half of the worlds have model ranges rewritten to touch the range of the feature in one depth: starting where the feature ends, ending where it starts, without extent, two layers meeting at one depth, a max depth surface reaching the min depth of the model at one listed point; a third of the worlds give models - cooling models included - a max depth surface that pinches out to zero local thickness at listed points, along the edge and on the triangle between them; a fore-arc family: a cold plate painted first, then a slab whose mass conserving model applies the spline and reaches above the slab top, queried in the wedge above the slab top), plume centres/rims/tip, points exactly on a ridge axis (ridges rewritten to pass through the plate) at depth zero and the top of the model, rotation matrices written with 2-4 decimals (a quarter of the worlds), exactly vertical slabs/faults queried exactly at their segment junctions and tip (mass conserving without taper), trench coordinates, points on the trench line and '
                           'below it, slab surface and tip, dip point, poles, the date line with both signs of zero, the planet centre, cartesian surface heights at/below the min depth, random points (thorough: magnitudes '
                           'up to 1e12): every answer finite or a std::exception, no sanitizer report, signal or hang; non-trivial = catalogue points on a degenerate locus')
     quick = tier == 'quick'
@@ -337,9 +375,13 @@ def main(tier, seed, replay):
     jobs = []
     n_pinch = 36 if quick else 1080
     cooling = ['plate model constant age', 'half space model', 'plate model', 'chapman', 'linear', 'adiabatic']
-    for i in range(n_gen + n_pinch):
+    n_forearc = 24 if quick else 720
+    for i in range(n_gen + n_pinch + n_forearc):
         wrng = random.Random(rng.getrandbits(48))
-        if i >= n_gen:
+        if i >= n_gen + n_pinch:
+            w = wg.gen_world(wrng, {'nfeatures': 2, 'type_sequence': ['continental plate', 'subducting plate'], 'p_grains': 0.2, 'p_velocity': 0.2, 'max_bend': 25.0})
+            forearc_spline(wrng, w)
+        elif i >= n_gen:
             # the pinch-out family: one area feature, one temperature model of each depth-dependent kind in turn, the model's max depth
             # surface coming up to its top (half of the time the surface of the world) at listed interior points
             name = cooling[i % len(cooling)]
@@ -358,13 +400,15 @@ def main(tier, seed, replay):
             pass
         elif i % 2 == 1:
             degenerate_ranges(wrng, w)
-        if i % 3 != 0:
+        if i % 3 != 0 and i < n_gen + n_pinch:
             ridge_through_footprint(wrng, w)
-        if i % 4 == 0:
+        if i % 4 == 0 and i < n_gen + n_pinch:
             sloppy_rotation_matrices(wrng, w)
-        if i % 5 == 1:
+        if i % 5 == 1 and i < n_gen + n_pinch:
             vertical_slabs(wrng, w)
-        if i >= n_gen:
+        if i >= n_gen + n_pinch:
+            pass
+        elif i >= n_gen:
             pinched_model_surfaces(wrng, w, force=True)
         elif i % 3 == 2:
             pinched_model_surfaces(wrng, w)
